@@ -131,6 +131,46 @@ def _pin_hypothesis():
 PINNED = _pin_hypothesis()
 
 
+def _library_frame(e):
+    """(exception, 'file.py:function') for the innermost pytableaux frame reachable from e (sub-exceptions of a group and
+    chained causes included), or None when the library is not on the traceback."""
+    stack, seen = [e], set()
+    while stack:
+        x = stack.pop()
+        if x is None or id(x) in seen:
+            continue
+        seen.add(id(x))
+        for f in reversed(traceback.extract_tb(x.__traceback__)):
+            if '/pytableaux/' in f.filename:
+                return x, f'{f.filename.rsplit("/", 1)[-1]}:{f.name}'
+        stack += list(getattr(x, 'exceptions', ())) + [x.__cause__, x.__context__]
+    return None
+
+
+def run_shard_guarded(mod, shard, acc):
+    """Every claimed property predicts a result for the inputs its check generates, so the library raising on a path the
+    check does not guard individually breaks that prediction: it is reported as a finding of the property (replayable by
+    re-running the shard), not as a harness error.  Exceptions without a library frame stay harness errors."""
+    try:
+        mod.run_shard(shard, acc)
+    except Exception as e:
+        hit = _library_frame(e)
+        if hit is None:
+            raise
+        x, where = hit
+        acc.finding(f'{mod.ID}|library-raises|{type(x).__name__}|{where}', {'__shard__': shard},
+                    f'while running shard {shard!r} the library raised {type(x).__name__}: {str(x)[:300]} (at {where}) on an input '
+                    f'for which the property predicts a result')
+
+
+def replay_any(mod, case):
+    if isinstance(case, dict) and '__shard__' in case:
+        acc = Acc()
+        run_shard_guarded(mod, case['__shard__'], acc)
+        return [(fp, v[2]) for fp, v in acc.findings.items()]
+    return mod.replay(case)
+
+
 def _worker(args):
     modname, shard = args
     t0 = time.time()
@@ -139,10 +179,10 @@ def _worker(args):
         acc = Acc()
         if '__regress__' in shard:
             for name, case in shard['__regress__']:
-                for fp, detail in mod.replay(case):
+                for fp, detail in replay_any(mod, case):
                     acc.finding(fp, case, detail)
         else:
-            mod.run_shard(shard, acc)
+            run_shard_guarded(mod, shard, acc)
         out = acc.dump()
         out['error'] = None
     except BaseException:
@@ -170,7 +210,7 @@ def known_for(pid):
 def shrink(mod, fingerprint, case):
     "Greedy structural delta debugging through the module's own candidates, bounded."
     gen = getattr(mod, 'shrink_candidates', None)
-    if gen is None:
+    if gen is None or (isinstance(case, dict) and '__shard__' in case):
         return case
     budget = SHRINK_BUDGET
     improved = True
@@ -269,7 +309,7 @@ def run(pid, tier, seed):
         small = shrink(mod, fp, case)
         if small is not case:
             try:
-                detail = dict(mod.replay(small)).get(fp, detail)
+                detail = dict(replay_any(mod, small)).get(fp, detail)
             except Exception:
                 pass
         path = write_replay(pid, fp, small, detail)
@@ -318,7 +358,7 @@ def replay_file(pid, path):
     with open(path) as f:
         doc = json.load(f)
     case = doc['case'] if 'case' in doc else doc
-    res = mod.replay(case)
+    res = replay_any(mod, case)
     known = known_for(pid)
     rc = 0
     if not res:
